@@ -213,6 +213,13 @@ Proof.
     destruct (list_eqN (n :: l) (reg s)); inversion Hs; subst; [exact HA |].
     eapply InvA_same_objs; [| | exact HA]; reflexivity.
   - destruct (get ai s); inversion Hs; subst; exact HA.
+  - destruct (get ai s) as [a |] eqn:Hg; [| discriminate].
+    destruct (probe && negb (memN ai (pcalls s))); [discriminate |].
+    assert (Hok : aok (now s) (succ_add (now s) a)).
+    { destruct (proj2 HA _ _ Hg) as [? [? [? ?]]]. unfold aok, succ_add; simpl; repeat split; auto; try lia. }
+    pose proof (InvA_put _ _ _ _ HA Hg Hok) as H1.
+    inversion Hs; subst; clear Hs.
+    destruct probe; simpl; (eapply InvA_same_objs; [| | exact H1]; reflexivity).
 Qed.
 
 (* ---------- one iteration of checkStatus, characterised ---------- *)
@@ -326,7 +333,7 @@ Qed.
 
 Lemma InvB_step : forall s l s', InvB s -> step s l = Some s' -> InvB s'.
 Proof.
-  intros s l s' HB Hs. destruct l; [simpl in Hs .. | idtac | simpl in Hs].
+  intros s l s' HB Hs. destruct l; [simpl in Hs .. | idtac | simpl in Hs | simpl in Hs].
   - inversion Hs; subst. eapply InvB_ext; [exact HB | apply ext_same; reflexivity | reflexivity | simpl; auto].
   - destruct (get ai s) as [a |] eqn:Hg; [| discriminate].
     destruct (probe && negb (memN ai (pcalls s))); [discriminate |].
@@ -364,6 +371,14 @@ Proof.
       destruct (B1 e ai Hl) as [a [Hg He]]. exists a. split; [unfold get in *; rewrite Ho; exact Hg | exact He].
     + intros ai Hin. rewrite Hq in Hin. destruct (B2 ai Hin) as [a Hg]. exists a. unfold get in *. rewrite Ho. exact Hg.
   - destruct (get ai s); inversion Hs; subst; exact HB.
+  - destruct (get ai s) as [a |] eqn:Hg; [| discriminate].
+    destruct (probe && negb (memN ai (pcalls s))); [discriminate |].
+    inversion Hs; subst; clear Hs.
+    eapply InvB_ext; [exact HB | | |].
+    + eapply ext_objs; [eapply (ext_put s ai a (succ_add (now s) a) Hg); reflexivity |].
+      destruct probe; reflexivity.
+    + destruct probe; reflexivity.
+    + destruct probe; simpl; auto.
 Qed.
 
 (* ---------- group C: whoever has no adapter yet, or an adapter in good standing, is in the selectors ---------- *)
@@ -412,7 +427,7 @@ Proof. unfold InvC, get. intros s s' H1 H2 H3 H4 H. rewrite H1, H2, H3, H4. exac
 
 Lemma InvC_step : forall s l s', InvB s -> InvC s -> step s l = Some s' -> InvC s'.
 Proof.
-  intros s l s' HB HC Hs. destruct l; [simpl in Hs .. | idtac | simpl in Hs].
+  intros s l s' HB HC Hs. destruct l; [simpl in Hs .. | idtac | simpl in Hs | simpl in Hs].
   - inversion Hs; subst. exact HC.
   - destruct (get ai s) as [a |] eqn:Hg; [| discriminate].
     destruct (probe && negb (memN ai (pcalls s))); [discriminate |].
@@ -460,4 +475,8 @@ Proof.
       assert (Hb' : get aj s = Some b) by (unfold get in *; rewrite <- Ho; exact Hb).
       split; [exact Hre |]. unfold rot_ok. rewrite Hle, Hb'. exact Hst.
   - destruct (get ai s); inversion Hs; subst; exact HC.
+  - destruct (get ai s) as [a |] eqn:Hg; [| discriminate].
+    destruct (probe && negb (memN ai (pcalls s))); [discriminate |].
+    inversion Hs; subst; clear Hs.
+    eapply (put_keeps_C s ai a (succ_add (now s) a)); eauto; try reflexivity; try (destruct probe; reflexivity).
 Qed.
